@@ -162,7 +162,13 @@ def scenario(eng, case, front):
                 ek += 1
                 try:
                     if ev['kind'] == 'data':
-                        await app._receive(6, C['datas'][ev['d']])
+                        if case.get('lp'):
+                            # the same Data inside a link-layer envelope (CongestionMark header): C10 says "as bare"
+                            d = C['datas'][ev['d']]
+                            body = [0xFD, 0x03, 0x40, 1, 1, 0x50, len(d)] + list(d)
+                            await app._receive(0x64, bytes([0x64, len(body)] + body))
+                        else:
+                            await app._receive(6, C['datas'][ev['d']])
                     elif ev['kind'] == 'nack':
                         i = ev['i']
                         if tasks[i] is not None and sent_idx[i] is not None and sent_idx[i] < len(face.out):
@@ -385,6 +391,8 @@ def cases(tier, seed):
                 add(front, 1, 2, order, [[1, 3]], [1, 3])
             else:
                 add(front, 1, 2, order, [[0, 1, 3, 4]], [1, 3, 2])
+        # Data arriving inside a link-layer envelope: every name (incl. implicit digests), one Interest, one event
+        cs.append((front, {'I': 1, 'E': 1, 'order': 'xe', 'lp': True, 'kinds': [['data']]}, {'weight': 6}))
         # two Interests on the same / nested nodes
         for order in _orders(2, 0):
             add(front, 2, 0, order, [[1, 0], [1, 3]], [1, 3])
